@@ -403,6 +403,7 @@ def run_shard(item):
         res.sample({'family': 'programs', 'code_prefix': packed_programs(item[1], item[2], 8)[0][:80]})
     elif kind == 'history':
         path_history(res, '.p8')
+        edited_history(res, '.p8')
         res.sample({'family': 'history', 'ops': 'write A; read; write B to the same path; read; write A again; read'})
     return res
 
@@ -488,6 +489,68 @@ def path_history(res, ext):
         shutil.rmtree(d, ignore_errors=True)
 
 
+def edited_history(res, ext):
+    """A cart LOADED from a file (by name), edited through every route that reaches its memory - the sections' setters,
+    Map cells of rows 32..63 (which live in gfx memory), Game.write_cart_data, a poke into the storage to_bytes() hands
+    out - then saved and read back: the file holds the cart as it is NOW. One edit kind at a time and all together."""
+    from pico8.game import file as p8file
+    d = tempfile.mkdtemp(prefix='c03e_')
+    try:
+        fills, label = region_cart(5, 'quick')
+        src = os.path.join(d, 'src' + ext)
+        p8file.to_file(carts.make_game(fills, version=33, code_lines=[b'-- e\nv=1\n'], label=label if ext == '.p8' else None), src)
+        kinds = ['map-low-cell', 'map-high-cell', 'write_cart_data-gfx', 'write_cart_data-all', 'poke-gfx', 'poke-sfx', 'set_sprite', 'gff-flags',
+                 'music-channel', 'all']
+
+        def edit(g, kind):
+            if kind in ('map-low-cell', 'all'):
+                g.map.set_cell(5, 40, 0x7f)
+                g.map.set_cell(127, 63, 0x01)
+            if kind in ('map-high-cell', 'all'):
+                g.map.set_cell(3, 2, 0x6e)
+            if kind in ('write_cart_data-gfx', 'all'):
+                g.write_cart_data(bytes((i * 7 + 1) & 0xff for i in range(1020)), 0x0ff0)
+            if kind == 'write_cart_data-all':
+                g.write_cart_data(bytes((i * 13 + 5) & 0xff if i % 4 != 3 or not (0x3100 <= i < 0x3200) else 0x11 for i in range(0x4300)), 0)
+            if kind in ('poke-gfx', 'all'):
+                g.gfx.to_bytes()[0x123] = 0xab
+                g.gfx.to_bytes()[0x1fff] = 0xcd
+            if kind in ('poke-sfx', 'all'):
+                g.sfx.to_bytes()[0] = 0x21
+                g.sfx.to_bytes()[0x10ff] = 0x07
+            if kind in ('set_sprite', 'all'):
+                g.gfx.set_sprite(3, [[1, 2, 3, 4, 5, 6, 7, 8]] * 8)
+            if kind in ('gff-flags', 'all'):
+                g.gff.to_bytes()[9] = 0x81
+            if kind in ('music-channel', 'all'):
+                g.music.set_channel(2, 1, 33)
+        for kind in kinds:
+            res.evaluations += 1
+            res.nontriv(('edited', ext, kind))
+            case = {'tag': ['edited', ext, kind]}
+            try:
+                g = p8file.from_file(src)
+                edit(g, kind)
+                want = carts.game_regions(g)
+                out = os.path.join(d, 'out_%s%s' % (kind, ext))
+                p8file.to_file(g, out)
+                g2 = p8file.from_file(out)
+            except Exception as e:
+                res.violation('C03|edited|raise|%s|%s' % (type(e).__name__, kind), 'load / edit (%s) / save / load raised %r' % (kind, e), case)
+                continue
+            got = carts.game_regions(g2)
+            bad = [n for n in want if (carts.mask_music(got[n]) if n == 'music' else got[n]) != (carts.mask_music(want[n]) if n == 'music' else want[n])]
+            if not bad and [g2.map.get_cell(x, y) for x, y in ((5, 40), (127, 63), (3, 2))] != [g.map.get_cell(x, y) for x, y in ((5, 40), (127, 63), (3, 2))]:
+                bad = ['map cells']
+            if bad:
+                res.violation('C03|edited|stale|%s|%s' % (kind, '+'.join(bad)),
+                              'a cart loaded from a %s file, edited (%s) and saved again reads back with %s as before the edit / different' % (ext, kind, ', '.join(bad)), case)
+            else:
+                res.outcome(('edited', kind))
+    finally:
+        shutil.rmtree(d, ignore_errors=True)
+
+
 def replay(case):
     res = ShardResult()
     tag = case['tag']
@@ -497,6 +560,9 @@ def replay(case):
         code = packed_programs(tier, tag[1], 8)[tag[2]]
         roundtrip({}, None, 33, code, res, tuple(tag))
         return [(s, v[0]) for s, v in res.violations.items()]
+    if kind == 'edited':
+        edited_history(res, tag[1])
+        return [(s_, v[0]) for s_, v in res.violations.items()]
     if kind == 'history':
         path_history(res, tag[1])
         return [(s, v[0]) for s, v in res.violations.items()]
